@@ -27,8 +27,9 @@ static void do_g1v(vf_case *c) {
 		if (rep && (P.inf || !rpt_on_curve(&RC, &P))) continue;
 		ep_inject(p, &P, rep ? (EP_ADD == PROJC ? REP_PRJ : EP_ADD == JACOB ? REP_JAC : REP_AFF) : REP_AFF, 3);
 		int th, v; VF_TRY(th, v = g1_is_valid(p)); transitions++;
-		if (th) vf_fail(NULL, "g1_is_valid raised %d", th);
-		else if ((v != 0) != exp) vf_fail(NULL, "g1_is_valid[rep %d]: says %d for a point that is %s", rep, v, exp ? "a non-identity member of the order-r subgroup" : (P.inf ? "the identity" : rpt_on_curve(&RC, &P) ? "on the curve but outside the subgroup" : "off the curve"));
+		/* a raised error is a rejection (the function returns 0 and flags the error); it is only wrong for a member */
+		if (th) { vf_stat_add("x.rejections_by_error", 1); v = 0; }
+		if ((v != 0) != exp) vf_fail(NULL, "g1_is_valid[rep %d]: says %d for a point that is %s", rep, v, exp ? "a non-identity member of the order-r subgroup" : (P.inf ? "the identity" : rpt_on_curve(&RC, &P) ? "on the curve but outside the subgroup" : "off the curve"));
 	}
 	rpt_clear(&P); rpt_clear(&T);
 }
@@ -41,8 +42,9 @@ static void do_g2v(vf_case *c) {
 		if (rep && (P.inf || !on)) continue;
 		ep2_inject(p, &P, rep ? (EP_ADD == PROJC ? REP_PRJ : EP_ADD == JACOB ? REP_JAC : REP_AFF) : REP_AFF, 3);
 		int th, v; VF_TRY(th, v = g2_is_valid(p)); transitions++;
-		if (th) vf_fail(NULL, "g2_is_valid raised %d", th);
-		else if ((v != 0) != exp) vf_fail(NULL, "g2_is_valid[rep %d]: says %d for a point that is %s", rep, v, exp ? "a non-identity member of the order-r subgroup" : (P.inf ? "the identity" : on ? "on the twist but outside the subgroup" : "off the twist"));
+		/* a raised error is a rejection (the function returns 0 and flags the error); it is only wrong for a member */
+		if (th) { vf_stat_add("x.rejections_by_error", 1); v = 0; }
+		if ((v != 0) != exp) vf_fail(NULL, "g2_is_valid[rep %d]: says %d for a point that is %s", rep, v, exp ? "a non-identity member of the order-r subgroup" : (P.inf ? "the identity" : on ? "on the twist but outside the subgroup" : "off the twist"));
 	}
 	rpt2_clear(&P); rpt2_clear(&T);
 }
@@ -52,8 +54,8 @@ static void do_gtv(vf_case *c) {
 	if (exp) { relt_pow(&T12, &R, &A, RN); exp = gt_ref_is_one(&R); }
 	gt_t a; gt_new(a); gt_put(a, &A);
 	int th, v; VF_TRY(th, v = gt_is_valid(a)); transitions++;
-	if (th) vf_fail(NULL, "gt_is_valid raised %d", th);
-	else if ((v != 0) != exp) vf_fail(NULL, "gt_is_valid: says %d for an element that is %s", v, exp ? "a non-identity element of order dividing r" : relt_is_zero(&T12, &A) ? "zero" : gt_ref_is_one(&A) ? "the identity" : "not of order dividing r");
+	if (th) { vf_stat_add("x.rejections_by_error", 1); v = 0; }
+	if ((v != 0) != exp) vf_fail(NULL, "gt_is_valid: says %d for an element that is %s", v, exp ? "a non-identity element of order dividing r" : relt_is_zero(&T12, &A) ? "zero" : gt_ref_is_one(&A) ? "the identity" : "not of order dividing r");
 	relt_clear(&A); relt_clear(&R);
 }
 
@@ -199,8 +201,8 @@ static void enumerate(void) {
 				rpt_set(&T, &P); mpz_add_ui(T.y, T.y, 1); mpz_mod(T.y, T.y, RC.p); setp1(1, &T); vf_run(&K); rpt_set(&T, &P); mpz_add_ui(T.x, T.x, 1); mpz_mod(T.x, T.x, RC.p); setp1(1, &T); vf_run(&K); }
 			if (vf_mine()) { rpt_set_inf(&P); K.op = "g1v"; K.n = 3; setp1(1, &P); vf_run(&K); mpz_sub_ui(k, RN, 1); rpt_mul(&RC, &P, &RG, k); setp1(1, &P); vf_run(&K); }
 			/* curve points from small x (outside the subgroup when the cofactor is > 1), their cofactor parts [r]P, members [h]P, member + cofactor part, small-order points */
-			int want = vf_tier ? 200 : 60, got = 0;
-			for (long x = 0; x < 2000 && got < want; x++) { mpz_set_si(t, x); if (!rpt_lift_x(&RC, &P, t)) continue; got++; if (!vf_mine()) continue; if (x & 1) rpt_neg(&RC, &P, &P);
+			int want = vf_tier ? 400 : 120, got = 0;
+			for (long x = 0; x < 4000 && got < want; x++) { mpz_set_si(t, x); if (!rpt_lift_x(&RC, &P, t)) continue; got++; if (!vf_mine()) continue; if (x & 1) rpt_neg(&RC, &P, &P);
 				K.op = "g1v"; K.n = 3; setp1(1, &P); vf_run(&K);
 				if (mpz_cmp_ui(RH, 1) > 0) { rpt_mul(&RC, &T, &P, RN); setp1(1, &T); vf_run(&K); rpt_add(&RC, &T, &T, &RG); setp1(1, &T); vf_run(&K); rpt_mul(&RC, &T, &P, RH); setp1(1, &T); vf_run(&K);
 					/* points of each small prime order l | h */
@@ -212,8 +214,8 @@ static void enumerate(void) {
 			for (unsigned i = 0; i < 7; i++) if (vf_mine()) { mpz_set_si(k, ms[i]); rpt2_mul(&RC2, &P, &RG2, k); K.op = "g2v"; K.n = 3; setp2(1, &P); vf_run(&K);
 				rpt2_set(&T, &P); mpz_add_ui(T.y.a, T.y.a, 1); mpz_mod(T.y.a, T.y.a, F2P); setp2(1, &T); vf_run(&K); rpt2_set(&T, &P); mpz_add_ui(T.x.b, T.x.b, 1); mpz_mod(T.x.b, T.x.b, F2P); setp2(1, &T); vf_run(&K); }
 			if (vf_mine()) { rpt2_set_inf(&P); K.op = "g2v"; K.n = 3; setp2(1, &P); vf_run(&K); }
-			int want = vf_tier ? 150 : 40, got = 0;
-			for (long i = 0; i < 4000 && got < want; i++) { f2_set_si(&x, i % 40, i / 40); if (!rpt2_lift_x(&RC2, &P, &x)) continue; got++; if (!vf_mine()) continue; if (i & 1) rpt2_neg(&P, &P);
+			int want = vf_tier ? 400 : 120, got = 0;
+			for (long i = 0; i < 8000 && got < want; i++) { f2_set_si(&x, i % 40, i / 40); if (!rpt2_lift_x(&RC2, &P, &x)) continue; got++; if (!vf_mine()) continue; if (i & 1) rpt2_neg(&P, &P);
 				K.op = "g2v"; K.n = 3; setp2(1, &P); vf_run(&K);                                  /* full-order twist point */
 				rpt2_mul(&RC2, &T, &P, RN2); setp2(1, &T); vf_run(&K);                             /* cofactor part */
 				rpt2_add(&RC2, &U, &T, &RG2); setp2(1, &U); vf_run(&K);                            /* member + cofactor part */
@@ -231,7 +233,7 @@ static void enumerate(void) {
 				relt_zero(&T12, &A); mpz_sub_ui(A.c[0], RX_P, 1); gt_pack(K.v[1], &A); vf_run(&K);                         /* -1: order 2 */
 				for (int i = 0; i < 12; i++) mpz_sub(A.c[i], RX_P, G.c[i]); mpz_mod(A.c[0], A.c[0], RX_P); for (int i = 0; i < 12; i++) mpz_mod(A.c[i], A.c[i], RX_P); gt_pack(K.v[1], &A); vf_run(&K); /* -g: order 2r */ }
 			/* sparse and dense elements outside the cyclotomic subgroup; their images under the easy part (cyclotomic, order not dividing r); products with a member */
-			int nf = vf_tier ? 24 : 8;
+			int nf = vf_tier ? 48 : 16;
 			mpz_t easy; mpz_init(easy); mpz_pow_ui(easy, RX_P, 6); mpz_sub_ui(easy, easy, 1); mpz_pow_ui(t, RX_P, 2); mpz_add_ui(t, t, 1); mpz_mul(easy, easy, t);
 			for (int f = 0; f < nf; f++) if (vf_mine()) { relt_zero(&T12, &A); for (int i = 0; i < 12; i++) if (f < 4 ? (i == f * 3 || i == 0) : 1) { mpz_set_ui(A.c[i], (unsigned long)(f * 131 + i * 17 + 2)); if (f >= 6) { mpz_mul(A.c[i], A.c[i], A.c[i]); mpz_mul_ui(A.c[i], A.c[i], 0x9E3779B1UL); mpz_pow_ui(A.c[i], A.c[i], 5); mpz_mod(A.c[i], A.c[i], RX_P); } }
 				gt_pack(K.v[1], &A); vf_run(&K);
@@ -245,19 +247,19 @@ static void enumerate(void) {
 			for (unsigned b = 0; b < 4; b++) { mpz_set_si(k, bs[b]); rpt_mul(&RC, &P, &RG, k); vf_dom *D = (b == 0 || vf_tier) ? &S : &SS;
 				for (int j = 0; j < D->n && !vf_expired(); j++) if (vf_mine()) { K.op = "g1m"; K.n = 4; setp1(1, &P); mpz_set(K.v[3], D->v[j]); vf_run(&K); } }
 			mpz_set_si(k, 5); rpt_mul(&RC, &Q, &RG, k);
-			for (int a = 0; a < S.n && !vf_expired(); a++) for (int b = a % 4; b < S.n; b += 4) if (vf_mine()) { K.op = "g1s"; K.n = 7; setp1(1, &RG); mpz_set(K.v[3], S.v[a]); setp1(4, &Q); mpz_set(K.v[6], S.v[b]); vf_run(&K); }
+			for (int a = 0; a < S.n && !vf_expired(); a++) for (int b = a % (vf_tier ? 1 : 2); b < S.n; b += (vf_tier ? 1 : 2)) if (vf_mine()) { K.op = "g1s"; K.n = 7; setp1(1, &RG); mpz_set(K.v[3], S.v[a]); setp1(4, &Q); mpz_set(K.v[6], S.v[b]); vf_run(&K); }
 			rpt_clear(&P); rpt_clear(&Q); }
 		{ rpt2 P, Q; rpt2_init(&P); rpt2_init(&Q); long bs[] = {1, 0x12345, -77, 0};
 			for (unsigned b = 0; b < 4; b++) { mpz_set_si(k, bs[b]); rpt2_mul(&RC2, &P, &RG2, k); vf_dom *D = (b == 0 || vf_tier) ? &S : &SS;
 				for (int j = 0; j < D->n && !vf_expired(); j++) if (vf_mine()) { K.op = "g2m"; K.n = 4; setp2(1, &P); mpz_set(K.v[3], D->v[j]); vf_run(&K); } }
 			mpz_set_si(k, 5); rpt2_mul(&RC2, &Q, &RG2, k);
-			for (int a = 0; a < S.n && !vf_expired(); a++) for (int b = a % 4; b < S.n; b += 4) if (vf_mine()) { K.op = "g2s"; K.n = 7; setp2(1, &RG2); mpz_set(K.v[3], S.v[a]); setp2(4, &Q); mpz_set(K.v[6], S.v[b]); vf_run(&K); }
+			for (int a = 0; a < S.n && !vf_expired(); a++) for (int b = a % (vf_tier ? 1 : 2); b < S.n; b += (vf_tier ? 1 : 2)) if (vf_mine()) { K.op = "g2s"; K.n = 7; setp2(1, &RG2); mpz_set(K.v[3], S.v[a]); setp2(4, &Q); mpz_set(K.v[6], S.v[b]); vf_run(&K); }
 			rpt2_clear(&P); rpt2_clear(&Q); }
 		{ relt G, A, C; relt_init(&G); relt_init(&A); relt_init(&C); gt_t g; gt_new(g); gt_get_gen(g); gt_get(&G, g); long bs[] = {1, 0x12345, -77};
 			mpz_set_si(k, 5); gt_ref_pow(&C, &G, k);
 			for (unsigned b = 0; b < 3; b++) { mpz_set_si(k, bs[b]); gt_ref_pow(&A, &G, k); vf_dom *D = (b == 0 || vf_tier) ? &S : &SS;
 				for (int j = 0; j < D->n && !vf_expired(); j++) if (vf_mine()) { K.op = "gte"; K.n = 3; gt_pack(K.v[1], &A); mpz_set(K.v[2], D->v[j]); vf_run(&K); } }
-			for (int a = 0; a < SS.n && !vf_expired(); a++) for (int b = a % 3; b < SS.n; b += 3) if (vf_mine()) { K.op = "gte"; K.n = 5; gt_pack(K.v[1], &G); mpz_set(K.v[2], SS.v[a]); gt_pack(K.v[3], &C); mpz_set(K.v[4], SS.v[b]); vf_run(&K); }
+			for (int a = 0; a < SS.n && !vf_expired(); a++) for (int b = a % (vf_tier ? 1 : 2); b < SS.n; b += (vf_tier ? 1 : 2)) if (vf_mine()) { K.op = "gte"; K.n = 5; gt_pack(K.v[1], &G); mpz_set(K.v[2], SS.v[a]); gt_pack(K.v[3], &C); mpz_set(K.v[4], SS.v[b]); vf_run(&K); }
 			relt_clear(&G); relt_clear(&A); relt_clear(&C); }
 		vf_dom_clear(&S); vf_dom_clear(&SS);
 		vf_bound_done(bn);
